@@ -1106,7 +1106,9 @@ impl Arena {
     let want = loop {
       let align_offset = align_offset::<T>(allocated);
       let size = t_size as u32;
-      let want = align_offset + size;
+      let Some(want) = align_offset.checked_add(size) else {
+        break size;
+      };
       if want > self.cap {
         break size;
       }
